@@ -97,12 +97,70 @@ def _drive_pow(c):
 
 
 # --------------------------------------------------------------- (b) Euclid
+def _entry(ep, q, r):
+    """The three functions (gcd_extended, gcd, lcm) behind the entry point named ep, for the
+    caller's operands q, r: pymbolic.algorithm itself, or a traits object / the generic class.
+    Looked up lazily (inside the thunks), so that a failing look-up is an observation too."""
+    import pymbolic.algorithm as alg
+    import pymbolic.traits as tr
+    if ep == "alg":
+        return (lambda: alg.extended_euclidean(q, r), lambda: alg.gcd(q, r), lambda: alg.lcm(q, r))
+    getters = {"traits_q": lambda: tr.traits(q), "traits_r": lambda: tr.traits(r),
+               "common": lambda: tr.common_traits(q, r), "ring": lambda: tr.EuclideanRingTraits}
+    if ep not in getters:
+        return None
+    get = getters[ep]
+    return (lambda: get().gcd_extended(q, r), lambda: get().gcd(q, r), lambda: get().lcm(q, r))
+
+
+_OTHER = {"r": "other", "v": [], "e": "unknown-entry"}
+
+
 def _drive_euclid(c):
-    from pymbolic.algorithm import extended_euclidean, gcd, lcm
     q, r = c["q"], c["r"]
-    return {"ee": _vals(lambda: extended_euclidean(q, r), 3),
-            "g": _vals(lambda: gcd(q, r), 1),
-            "l": _vals(lambda: lcm(q, r), 1)}
+    es = []
+    for ep in c["eps"]:
+        fns = _entry(ep, q, r)
+        if fns is None:
+            es.append({"ep": ep, "ee": _OTHER, "g": _OTHER, "l": _OTHER})
+            continue
+        es.append({"ep": ep, "ee": _vals(fns[0], 3), "g": _vals(fns[1], 1), "l": _vals(fns[2], 1)})
+    return {"es": es}
+
+
+def _drive_euclidbig(c):
+    """One operand is 2^k + a, the other the small integer sm (sw = 1: the small one first).  What
+    is seen of the big results: residues modulo the primes c["ps"] (and g itself when it is small);
+    an lcm that is not an int is read as the exact rational it is."""
+    from fractions import Fraction
+    big, sm, ps = 2 ** c["k"] + c["a"], c["sm"], c["ps"]
+    q, r = (big, sm) if c["sw"] == 0 else (sm, big)
+    es = []
+    for ep in c["eps"]:
+        fns = _entry(ep, q, r)
+        other = {"r": "other", "e": "unknown-entry", "res": [], "g": {"k": "unrep"}}
+        if fns is None:
+            es.append({"ep": ep, "ee": other, "g": _OTHER, "l": other})
+            continue
+        st, t = _timed(fns[0])
+        if st != "ok":
+            ee = {"r": st, "e": t, "res": [], "g": {"k": "unrep"}}
+        elif not (isinstance(t, tuple) and len(t) == 3 and all(type(x) is int for x in t)):
+            ee = {"r": "other", "e": type(t).__name__, "res": [], "g": {"k": "unrep"}}
+        else:
+            ee = {"r": "ok", "e": "", "res": [[x % p for x in t] for p in ps], "g": ser.val_to_json(t[0])}
+        st, v = _timed(fns[2])
+        if st != "ok":
+            lo = {"r": st, "e": v, "res": []}
+        elif isinstance(v, bool) or not isinstance(v, (int, float, Fraction)) or (isinstance(v, float) and v != v) \
+                or v in (float("inf"), float("-inf")):
+            lo = {"r": "other", "e": type(v).__name__, "res": []}
+        else:
+            fr = Fraction(v)
+            lo = {"r": "ok", "e": "", "res": [[fr.numerator % p, fr.denominator % p] for p in ps],
+                  "t": type(v).__name__}
+        es.append({"ep": ep, "ee": ee, "g": _vals(fns[1], 1), "l": lo})
+    return {"es": es}
 
 
 def _drive_gcdmany(c):
@@ -331,21 +389,36 @@ def _drive_poly(c):
 
 
 def _drive_peuclid(c):
-    from pymbolic.algorithm import extended_euclidean
-    P, Q = _mkpoly(c["P"]), _mkpoly(c["Q"])
-    st, r = _timed(lambda: extended_euclidean(P, Q), CPU_LIMIT_LOOPY_S)
-    if st != "ok":
-        return {"r": st, "e": r, "res": []}
-    if not isinstance(r, tuple) or len(r) != 3:
-        return {"r": "other", "e": type(r).__name__, "res": []}
+    """Polynomial pairs through every entry point: gcd_extended (three polynomials), gcd, lcm."""
     from pymbolic.polynomial import Polynomial
-    res = []
-    for x in r:
-        if not isinstance(x, Polynomial) and isinstance(x, int):
-            # a constant cofactor: the constant polynomial
-            x = Polynomial(P.base, ((0, x),) if x else ())
-        res.append(_polyobs("ok", x))
-    return {"r": "ok", "e": "", "res": res}
+    P, Q = _mkpoly(c["P"]), _mkpoly(c["Q"])
+
+    def aspoly(x):
+        if not isinstance(x, Polynomial) and type(x) is int:
+            # a constant (cofactor): the constant polynomial
+            return Polynomial(P.base, ((0, x),) if x else ())
+        return x
+
+    es = []
+    for ep in c["eps"]:
+        fns = _entry(ep, P, Q)
+        if fns is None:
+            other = {"r": "other", "e": "unknown-entry"}
+            es.append({"ep": ep, "ee": {**other, "res": []}, "g": other, "l": other})
+            continue
+        st, r = _timed(fns[0], CPU_LIMIT_LOOPY_S)
+        if st != "ok":
+            ee = {"r": st, "e": r, "res": []}
+        elif not isinstance(r, tuple) or len(r) != 3:
+            ee = {"r": "other", "e": type(r).__name__, "res": []}
+        else:
+            ee = {"r": "ok", "e": "", "res": [_polyobs("ok", aspoly(x)) for x in r]}
+        st, r = _timed(fns[1], CPU_LIMIT_LOOPY_S)
+        g = _polyobs(st, aspoly(r) if st == "ok" else r)
+        st, r = _timed(fns[2], CPU_LIMIT_LOOPY_S)
+        lo = _polyobs(st, aspoly(r) if st == "ok" else r)
+        es.append({"ep": ep, "ee": ee, "g": g, "l": lo})
+    return {"es": es}
 
 
 # ------------------------------------------------------------- (e) quotient
@@ -409,7 +482,9 @@ def drive_case(case, extra):
     if part == "pow":
         o = _drive_pow(c)
     elif part == "euclid":
-        o, n_eval = _drive_euclid(c), 3
+        o, n_eval = _drive_euclid(c), 3 * len(c["eps"])
+    elif part == "euclidbig":
+        o, n_eval = _drive_euclidbig(c), 3 * len(c["eps"])
     elif part == "gcdmany":
         o = _drive_gcdmany(c)
     elif part == "fft":
@@ -419,7 +494,7 @@ def drive_case(case, extra):
     elif part == "poly":
         o, n_eval = _drive_poly(c)
     elif part == "peuclid":
-        o = _drive_peuclid(c)
+        o, n_eval = _drive_peuclid(c), 3 * len(c["eps"])
     elif part == "quot":
         o, n_eval = _drive_quot(c), 4
     elif part == "quotbig":
@@ -447,7 +522,10 @@ def signature(rec, f):
             return {"clause": "op-result", "op": c["op"], "at": at}
         return {"clause": cl, "op": c["op"], "at": at}
     if part == "peuclid":
-        return {"clause": cl, "exc": at}
+        # ep: the entry point TLC attributes the clause to (absent: the routine itself)
+        return {"clause": cl, "exc": at, **({"entry": f["ep"]} if f.get("ep") else {})}
+    if part in ("euclid", "euclidbig"):
+        return {"clause": cl, **({"at": at} if at else {}), **({"entry": f["ep"]} if f.get("ep") else {})}
     if part in ("quot", "quotbig"):
         return {"clause": cl, "at": at}
     return {"clause": cl}
@@ -456,6 +534,7 @@ def signature(rec, f):
 _NONTRIVIAL = {
     "pow": lambda c: c["n"] >= 2 or c["n"] < 0,
     "euclid": lambda c: c["q"] != 0 and c["r"] != 0,
+    "euclidbig": lambda c: True,
     "gcdmany": lambda c: len(c["xs"]) >= 2,
     "fft": lambda c: c["n"] >= 2,
     "symg": lambda c: c["n"] >= 2,
@@ -469,6 +548,8 @@ ALGO_CONTROLS = {
     "drop_last": "PowResult", "no_square": "PowLoopInv", "accept_negative": "PowRefusal",
     "swap_forgot": "EuResult", "wrong_T": "EuBezoutInv", "stride": "FFTResult",
     "twiddle": "FFTResult",
+    # the entry-point layer of the Euclidean routine
+    "forward_swapped": "EuResult", "coeffs_exchanged": "EuResult", "lcm_divides_twice": "EuLcm",
     # IdentityMapper.map_polynomial: which parts decide "return the argument"
     "flag_overwritten": "MapFlagInv", "flag_overwritten_result": "MapResult", "base_ignored": "MapResult",
     "any_for_all": "MapResult", "generator_consumed": "MapResult",
@@ -507,65 +588,104 @@ def _judge(recs, wd, name="c19", quick=True):
     return kit.judge_shards("C19_Judge", "C19_Judge", shards, heap="2g")
 
 
+_CORRUPTIONS = {"pow": {"pow"}, "euclid": {"euclid", "euclid-entry-order"}, "euclidbig": {"euclidbig-entry-order"},
+                "fft": {"fft"}, "poly": {"poly", "poly-mapper-coeffs", "poly-mapper-base"}, "quot": {"quot"}}
+
+
 def _corrupt(rec):
-    """Trace corruption control: flip one recorded field; the judge must reject it.
-    (label, corrupted record, clause that must reject it) or (None, None, None)"""
-    r = json.loads(json.dumps(rec))
-    part, o = r["part"], r["o"]
-    if part == "pow" and o["r"] == "ok" and o["t"] == "mon" and r["c"]["mon"] == "zm" and r["c"]["n"] >= 1:
-        o["v"] = [(o["v"][0] + 1) % r["c"]["m"]]
-        return part, r, "pow-value"
-    if part == "euclid" and o["ee"]["r"] == "ok" and r["c"]["q"] != 0:
-        o["ee"]["v"][1]["n"] += 1
-        return part, r, "ee-bezout"
-    if part == "fft" and o["r"] == "ok" and r["c"]["n"] >= 3:
-        o["y"][2] = (o["y"][2] + 1) % r["c"]["p"]
-        return part, r, "fft-value"
-    if part == "poly" and r["c"]["op"] == "add" and r["c"]["map"] == "none" and o["res"] \
+    """Trace corruption controls: flip one recorded field; the judge must reject it.
+    Yields (label, corrupted record, clause that must reject it, entry it must be attributed to
+    or None)."""
+    def copy():
+        r = json.loads(json.dumps(rec))
+        return r, r["o"]
+    part, o, c = rec["part"], rec["o"], rec["c"]
+    if part == "pow" and o["r"] == "ok" and o["t"] == "mon" and c["mon"] == "zm" and c["n"] >= 1:
+        r, o2 = copy()
+        o2["v"] = [(o["v"][0] + 1) % c["m"]]
+        yield part, r, "pow-value", None
+    def holds(v):
+        # the corruption starts from a recorded triple that satisfies the identity (on a changed
+        # tree a record may be wrong already - corrupting it could repair it)
+        return len(v) == 3 and all(x.get("k") == "int" for x in v) \
+            and v[0]["n"] == v[1]["n"] * c["q"] + v[2]["n"] * c["r"]
+    if part == "euclid" and o["es"][0]["ee"]["r"] == "ok" and c["q"] != 0 and holds(o["es"][0]["ee"]["v"]):
+        r, o2 = copy()
+        o2["es"][0]["ee"]["v"][1]["n"] += 1
+        yield part, r, "ee-bezout", None
+    # an entry point that "took the operands in the other order": the two recorded Bezout
+    # coefficients of one traits entry exchanged (the gcd stays right), on a pair where it matters
+    if part == "euclid" and len(o["es"]) >= 2 and o["es"][1]["ee"]["r"] == "ok":
+        v = o["es"][1]["ee"]["v"]
+        if holds(v) and v[1]["n"] * c["q"] + v[2]["n"] * c["r"] != v[2]["n"] * c["q"] + v[1]["n"] * c["r"]:
+            r, o2 = copy()
+            w = o2["es"][1]["ee"]["v"]
+            w[1], w[2] = w[2], w[1]
+            yield "euclid-entry-order", r, "ee-bezout", "ee@" + c["eps"][1]
+    if part == "euclidbig" and len(o["es"]) >= 2 and o["es"][1]["ee"]["r"] == "ok" and c["k"] >= 53:
+        res = o["es"][1]["ee"]["res"]
+        p0 = c["ps"][0]
+        bigm = (pow(2, c["k"], p0) + c["a"]) % p0
+        q0, r0 = (bigm, c["sm"] % p0) if c["sw"] == 0 else (c["sm"] % p0, bigm)
+        if res and (res[0][1] - res[0][2]) * (q0 - r0) % p0 != 0 \
+                and (res[0][0] - res[0][1] * q0 - res[0][2] * r0) % p0 == 0:
+            r, o2 = copy()
+            for t in o2["es"][1]["ee"]["res"]:
+                t[1], t[2] = t[2], t[1]
+            yield "euclidbig-entry-order", r, "ee-bezout", "ee@" + c["eps"][1]
+    if part == "fft" and o["r"] == "ok" and c["n"] >= 3:
+        r, o2 = copy()
+        o2["y"][2] = (o["y"][2] + 1) % c["p"]
+        yield part, r, "fft-value", None
+    if part == "poly" and c["op"] == "add" and c["map"] == "none" and o["res"] \
             and o["res"][0]["r"] == "poly" and o["res"][0]["d"]:
-        o["res"][0]["d"][0]["c"]["n"] += 1
-        return part, r, "op-coeffs"
+        r, o2 = copy()
+        o2["res"][0]["d"][0]["c"]["n"] += 1
+        yield part, r, "op-coeffs", None
     # a mapper that rewrites only some coefficients "returned its argument": the recorded mapper
     # result is replaced by the unmapped operand
-    if part == "poly" and r["c"]["map"] != "none" and r["c"]["mmode"] == "only" and o["mp"]["r"] == "poly" \
-            and r["c"]["mbase"] == "x" and o["mp"]["d"] != r["c"]["P"] and len(r["c"]["P"]) >= 3:
-        o["mp"]["d"] = r["c"]["P"]
-        o["mp"]["id"] = 1
-        return "poly-mapper-coeffs", r, "map-coeffs"
+    if part == "poly" and c["map"] != "none" and c["mmode"] == "only" and o["mp"]["r"] == "poly" \
+            and c["mbase"] == "x" and o["mp"]["d"] != c["P"] and len(c["P"]) >= 3:
+        r, o2 = copy()
+        o2["mp"]["d"] = c["P"]
+        o2["mp"]["id"] = 1
+        yield "poly-mapper-coeffs", r, "map-coeffs", None
     # ... "did not rename the base"
-    if part == "poly" and r["c"]["map"] != "none" and o["mp"]["r"] == "poly" and r["c"]["mbase"] != "x" \
-            and o["mp"]["b"] == r["c"]["mbase"]:
-        o["mp"]["b"] = "x"
-        return "poly-mapper-base", r, "map-base"
-    if part == "quot" and r["c"]["d"] not in (0, 1, -1) and o["evx"].get("k") in ("int", "frac"):
-        o["evx"]["n"] += 1
-        return part, r, "quot-exact-value"
-    return None, None, None
+    if part == "poly" and c["map"] != "none" and o["mp"]["r"] == "poly" and c["mbase"] != "x" \
+            and o["mp"]["b"] == c["mbase"]:
+        r, o2 = copy()
+        o2["mp"]["b"] = "x"
+        yield "poly-mapper-base", r, "map-base", None
+    if part == "quot" and c["d"] not in (0, 1, -1) and o["evx"].get("k") in ("int", "frac"):
+        r, o2 = copy()
+        o2["evx"]["n"] += 1
+        yield part, r, "quot-exact-value", None
 
 
 def _corrupted_records(recs, first_id):
-    """One corrupted copy per kind of corruption (ids from first_id on) with the clause that must
-    reject it."""
+    """One corrupted copy per kind of corruption (ids from first_id on) with the clause (and entry
+    point) that must reject it."""
     picked, seen = [], set()
     for r in recs:
-        if r["part"] in seen and (r["part"] != "poly" or {"poly-mapper-coeffs", "poly-mapper-base"} <= seen):
+        if _CORRUPTIONS.get(r["part"], set()) <= seen:
             continue
-        label, bad, clause = _corrupt(r)
-        if bad is not None and label not in seen:
-            seen.add(label)
-            bad["id"] = first_id + len(picked)
-            picked.append((label, bad, clause))
+        for label, bad, clause, ep in _corrupt(r):
+            if label not in seen:
+                seen.add(label)
+                bad["id"] = first_id + len(picked)
+                picked.append((label, bad, clause, ep))
     return picked
 
 
 def _check_corrupted(picked, verdicts):
     byid = {v["id"]: v for v in verdicts}
-    for label, bad, clause in picked:
+    for label, bad, clause, ep in picked:
         v = byid.get(bad["id"])
-        if v is None or clause not in [f["cl"] for f in v.get("fs", [])]:
+        if v is None or not any(f["cl"] == clause and (ep is None or f.get("ep") == ep) for f in v.get("fs", [])):
             raise kit.MachineryError(
-                f"trace-corruption control: corrupted {label} record was not rejected with {clause}: {v}")
-    return {label: cl for label, _b, cl in picked}
+                f"trace-corruption control: corrupted {label} record was not rejected with {clause}"
+                f"{' attributed to ' + ep if ep else ''}: {v}")
+    return {label: cl for label, _b, cl, _e in picked}
 
 
 def _classify(recs, verdicts, out, counts):
@@ -626,7 +746,7 @@ def run(tier, seed, out):
     # trace-corruption control: a few recorded observations with one field flipped are judged
     # along with the real ones; TLC must reject each of them with the expected clause
     corrupted = _corrupted_records(recs, len(recs))
-    verdicts, st, tr = _judge(recs + [b for _l, b, _c in corrupted], wd, quick=(tier == "quick"))
+    verdicts, st, tr = _judge(recs + [b for _l, b, _c, _e in corrupted], wd, quick=(tier == "quick"))
     corr = _check_corrupted(corrupted, verdicts)
     verdicts = [v for v in verdicts if v["id"] < len(recs)]
     kit.log(f"C19: TLC judged {len(recs)} records, {len(verdicts)} not plainly OK; "
@@ -654,7 +774,8 @@ def run(tier, seed, out):
     out.samples = [{"case": {"part": r["part"], **r["c"]}, "recorded": r["o"]}
                    for r in list(pick.values())[:4]]
     out.rule = ("a case is one generated input of one part (pow: element x exponent x unit; euclid: "
-                "integer pair judged for extended_euclidean, gcd and lcm; fft: (length, kind, sign, "
+                "integer pair (also 2^k+a against a small integer) judged for gcd_extended, gcd and lcm through every "
+                "entry point - pymbolic.algorithm, traits(q), traits(r), common_traits(q, r), EuclideanRingTraits; fft: (length, kind, sign, "
                 "vector) over Z_p; poly: (operation, operands, mapper = constant rule x selection of constants "
                 "x base name x parameter binding) judged clause by clause; quot: "
                 "integer pair); non-trivial = exponent >= 2 or negative / both integers non-zero / "
